@@ -12,4 +12,5 @@ INVARIANT InvAdopt
 INVARIANT InvNoLeak
 INVARIANT InvIdentity
 INVARIANT InvGone
+INVARIANT InvStopping
 CHECK_DEADLOCK FALSE
